@@ -1,0 +1,23 @@
+// Copyright ©2024 The bíogo Authors. All rights reserved.
+// Use of this source code is governed by a BSD-style
+// license that can be found in the LICENSE file.
+
+//go:build verif
+
+package cram
+
+import "io"
+
+// VerifITF8 reads one ITF-8 number from r with the package's stream reader.
+func VerifITF8(r io.Reader) (int32, error) {
+	er := errorReader{r: r}
+	v := er.itf8()
+	return v, er.err
+}
+
+// VerifLTF8 reads one LTF-8 number from r with the package's stream reader.
+func VerifLTF8(r io.Reader) (int64, error) {
+	er := errorReader{r: r}
+	v := er.ltf8()
+	return v, er.err
+}
